@@ -470,7 +470,7 @@ func cmdRun(args []string) int {
 		"technique":            spec.Technique,
 		"evaluations":          ex.paths,
 		"distinct_nontrivial":  ex.nontrivial,
-		"rule":                 "one evaluation = one path of the symbolic executor (a distinct decision trail: branch outcomes decided by the solver, Choice/schedule/crash/order alternatives); non-trivial = the path evaluated at least one branch or obligation whose condition was not a constant (the solver or the cached model had to decide it), or it takes at least one non-default schedule, crash-point, shuffle or map-order alternative; trails are distinct by construction",
+		"rule":                 "one evaluation = one path of the symbolic executor (a distinct decision trail: branch outcomes decided by the solver, Choice/schedule/crash/order alternatives); non-trivial = the path completed (assumptions satisfiable) and either evaluated at least one branch or obligation whose condition was not a constant (the solver or the cached model had to decide it), or took at least one alternative other than the default one at a Choice (input shape, operation, fault), schedule, crash-point, shuffle or map-order decision - i.e. it is not the single all-defaults run; trails are distinct by construction",
 		"samples":              samples,
 		"exhaustive":           exhaustive,
 		"paths":                ex.paths,
